@@ -40,6 +40,12 @@ MUTANTS = {
         ('ck-pssh-data', 'dashlive/drm/clearkey.py', "            key_ids=keys,\n            data=None)", "            key_ids=keys,\n            data=b'')"),
     ],
     'C15': [
+        ('csrf-reuse-ok', 'dashlive/server/requesthandler/csrf.py', "        if existing_key is not None:\n            raise CsrfFailureException(\"Re-use of csrf_token\")\n", ""),
+        ('csrf-no-service', 'dashlive/server/requesthandler/csrf.py', "            hashlib.sha1)\n        sig.update(bytes(service, 'utf-8'))\n        if strict_origin:\n            sig.update(bytes(origin, 'utf-8'))\n        # logging.debug(\"check_csrf Referer", "            hashlib.sha1)\n        if strict_origin:\n            sig.update(bytes(origin, 'utf-8'))\n        # logging.debug(\"check_csrf Referer"),
+        ('csrf-inverted', 'dashlive/server/requesthandler/csrf.py', "        if token != b64_sig:", "        if token == b64_sig:"),
+        ('csrf-not-recorded', 'dashlive/server/requesthandler/csrf.py', "        db.session.add(existing_key)\n        db.session.commit()\n", "        db.session.commit()\n"),
+        ('csrf-empty-cookie', 'dashlive/server/requesthandler/csrf.py', "        if not csrf_key:\n            logging.debug(\"csrf deserialize failed\")", "        if csrf_key is None:\n            logging.debug(\"csrf deserialize failed\")"),
+        ('csrf-origin-always-off', 'dashlive/server/requesthandler/csrf.py', "        sig.update(bytes(service, 'utf-8'))\n        if strict_origin:\n            sig.update(bytes(origin, 'utf-8'))\n        # logging.debug(\"check_csrf Referer", "        sig.update(bytes(service, 'utf-8'))\n        # logging.debug(\"check_csrf Referer"),
         ('auth-admin-inverted', 'dashlive/server/requesthandler/decorators.py', "            if admin and not current_user.is_admin:", "            if admin and current_user.is_admin:"),
         ('auth-perm-dropped', 'dashlive/server/requesthandler/decorators.py', "            if permission and not current_user.has_permission(permission):\n                return needs_login_response(admin=admin, html=html, permission=permission)\n", ""),
         ('auth-jwt-anon', 'dashlive/server/requesthandler/decorators.py', "            if not jwt_current_user.is_authenticated:\n                return jsonify_no_content(401)\n", ""),
